@@ -616,6 +616,7 @@ package ysgo
 // round_places: its value is checked by the bounded stand-in B-rp (C19); here only that it cannot panic (C06)
 //@ func roundPlaces(f float64, places int) (res float64)
 //@   float opaque
+//@   arith wrap
 //
 //@ func NewDialogueRunner(storer variable.Storer, rngSeed string, readers []io.Reader) (runner *DialogueRunner, err error)
 //@   ensures "runner-or-error": (err == nil) == (runner != nil)
